@@ -18,9 +18,9 @@ TECH = {
  "C12": "determinism across processes + T=0 reference sweep + chi-square against the exact k-step Metropolis chain + in-kernel dE invariant (H2 hook)",
  "C13": "model-based history monitor: every AnnealResults operation mirrored on a plain-list shadow, invariant checked after each step",
  "C14": "history monitor: bookkeeping invariants at the client boundary after every edit, refresh exactness, label discipline of produced forms",
- "C15": "runtime contract on approximate_*_extrema and anneal_temperature_range against exact truth-table extrema",
+ "C15": "runtime contract on approximate_*_extrema and anneal_temperature_range against exact truth-table extrema, plus a second look after in-place edits of the same object",
  "C16": "differential monitor: symbolic build + subs versus numeric build, per constraint branch",
- "C17": "ASan+UBSan build of the working tree's C sources driven through the Python API in hostile call histories, boundary precondition contract on c_anneal_*, in-kernel bounds assertions (H2), valgrind memcheck subset, canaries",
+ "C17": "ASan+UBSan build of the working tree's C sources driven through the Python API in hostile call histories (per-call report attribution), boundary precondition contract on c_anneal_*, in-kernel bounds assertions (H2), libFuzzer+ASan+UBSan harness on the kernels with in-harness oracles, leak probe, valgrind memcheck subset (thorough), canaries",
  "C18": "runtime contracts on subvalue/subgraph/normalize against exact substitution in the reference model",
  "C19": "deep-snapshot argument-immutability and aliasing monitor attached to the API while all other workloads run; info round-trip contract",
 }
